@@ -4,7 +4,7 @@ ENGINES = [
     {
         "name": "vloop",
         "path": "vf/engine/vloop.py vf/engine/explore.py vf/engine/netsim.py",
-        "serves_properties": ["C04", "C05", "C06", "C07", "C08", "C19"],
+        "serves_properties": ["C04", "C05", "C06", "C07", "C08", "C09", "C19"],
         "kind_free_text": "stateless model checker for asyncio code: virtual-time BaseEventLoop stepped by hand, "
         "deviation-bounded exhaustive DFS over environment choices (segment delivery, timers, EOF/RST, cancel), "
         "replay of choice prefixes on fresh objects",
@@ -142,6 +142,19 @@ CHECKS = [
         "record sequence of log.json.zst, flock release, hook environment, and 'a failing hook changes nothing'.",
         "note": "Trusted: CPython's exit rules for asyncio.run (conformance-tested in thorough), in-memory transport/fake ECU, tracing DBHandler subclass. "
         "Not covered: lock contention, dumpcap, power supply, Windows, signals other than SIGINT, more than two faults per run.",
+    },    {
+        "id": "C09",
+        "engine": "vloop",
+        "level": "model_checking",
+        "technique": "exhaustive enumeration of all session-transition graphs (ECU models) x scanner configurations; the real SessionsScanner.entry_point() runs on each under a virtual-time event loop and is compared with a reference breadth-first search",
+        "text": "All directed session graphs on the default session + 2 further sessions (256 graphs each for ids (2,3) and (3,0x40)); thorough: + 3 "
+        "further sessions (32768 graphs) x depth x skip sets x thorough x reset x refusal flavour (0x12 / 0x7E / 0x22). Each configuration is one complete "
+        "run of the real scanner command (setup, 127 probes per stack, teardown) against the model ECU through the real tcp-lines transport. Checked: "
+        "result == sessions reachable from 0x01 within depth through non-skipped probes (reference BFS), every reported 'via stack' path is a real path "
+        "of length <= depth, skipped sessions are never requested, the scan terminates on cyclic graphs, exit code 0 (or the documented abort with exit "
+        "code 1 when a reached session cannot return to the default session and --reset is off).",
+        "note": "Trusted: model ECU, reference BFS, vloop; benign reply timing (timing faults are C04/C08). Paths are read from the RESULT log lines. "
+        "Not covered: more than 4 sessions, hooks (--with-hooks), power cycling.",
     },
 ]
 
